@@ -172,13 +172,13 @@ func chain(db *gorm.DB, in Input) *gorm.DB {
 	tx := db.Session(&gorm.Session{})
 	switch in.Cond.Kind {
 	case "mod":
-		tx = tx.Where("id % ? = ?", in.Cond.A, in.Cond.B)
+		tx = tx.Where("items.id % ? = ?", in.Cond.A, in.Cond.B)
 	case "gt":
-		tx = tx.Where("id > ?", in.Cond.A)
+		tx = tx.Where("items.id > ?", in.Cond.A)
 	case "none":
 		tx = tx.Where("1 = 0")
 	case "ormodgt":
-		tx = tx.Where("id % ? = ?", in.Cond.A, in.Cond.B).Or("id > ?", in.Cond.C)
+		tx = tx.Where("items.id % ? = ?", in.Cond.A, in.Cond.B).Or("items.id > ?", in.Cond.C)
 	case "seq":
 		q, a := in.Cond.First.sql()
 		tx = tx.Where(q, a...)
@@ -535,6 +535,24 @@ func run(db *gorm.DB, in Input) (o Obs) {
 		})
 		fail("batches", r.Error)
 		o.BatchesRA = r.RowsAffected
+		// the same batches from a chain that joins another table with an id column (the cursor
+		// condition of the later batches must name the model's own key)
+		if (in.Ord == "none" || in.Ord == "") && in.Cond.Kind != "seq" && r.Error == nil {
+			var jb []Item
+			got := [][]Row{}
+			jr := chain(db, in).Joins("JOIN items AS t2 ON t2.id = items.id").FindInBatches(&jb, int(in.BS), func(tx *gorm.DB, n int) error {
+				if len(got) > len(in.Tbl)+3 {
+					return fmt.Errorf("runaway: more batches than rows")
+				}
+				got = append(got, toRows(jb))
+				return nil
+			})
+			if jr.Error != nil {
+				o.Errs = append(o.Errs, "batches over a joined chain: "+jr.Error.Error())
+			} else if fmt.Sprint(got) != fmt.Sprint(o.Batches) || jr.RowsAffected != o.BatchesRA {
+				o.Errs = append(o.Errs, fmt.Sprintf("batches over a joined chain: %v (RowsAffected %d), without the join: %v (%d)", got, jr.RowsAffected, o.Batches, o.BatchesRA))
+			}
+		}
 	}
 	genericLimit(in, &o)
 	selectedColumns(db, in, &o)
